@@ -109,6 +109,8 @@ pub fn run(tier: Tier) -> Report {
     cases.push((17, 2049, 5, 2));
     // more than 2^24 samples (sizes whose product is not representable in single precision)
     cases.push((4097, 4101, 3, 0));
+    // ... and one whose *chroma* sample count (ceil(w/2) * ceil(h/2)) is beyond 2^24 and odd
+    cases.push((8193, 8193, 3, 0));
     if tier.thorough() {
         cases.push((352, 288, 9, 1));
         cases.push((1000, 3, 4, 0));
@@ -299,7 +301,7 @@ pub fn run(tier: Tier) -> Report {
     rep.add_transitions(std_cases.len() as u64);
     rep.add_states(std_cases.len() as u64);
     rep.set_rule(&format!(
-        "every size 1..={maxd} x 1..={maxd}: I pictures at every quantizer 1..31 (fully crossed for sizes <= 20x20, pairwise beyond), plus a P and a D picture per size, plus long/thin extras, every residue mod 16 above 256/512/1024, all pairs of the boundary lattice of dimensions (powers of two and their neighbours, 3*2^k, the named formats, 65535) under the pixel cap, every height / width up to 700 (thorough 1500) next to a fixed 24, prime sizes, one picture of more than 2^24 samples, three-picture size histories, every ordered triple of 24 colliding sizes as intra pictures on one decoder, and standard-mode custom sizes: plane-size relations, then deblock(plane, row, QUANT_TO_STRENGTH[q]) on the three planes and yuv420_to_rgba on the result under catch_unwind; non-trivial = sizes with an odd dimension or fewer than 10 rows/columns"
+        "every size 1..={maxd} x 1..={maxd}: I pictures at every quantizer 1..31 (fully crossed for sizes <= 20x20, pairwise beyond), plus a P and a D picture per size, plus long/thin extras, every residue mod 16 above 256/512/1024, all pairs of the boundary lattice of dimensions (powers of two and their neighbours, 3*2^k, the named formats, 65535) under the pixel cap, every height / width up to 700 (thorough 1500) next to a fixed 24, prime sizes, one picture of more than 2^24 luma samples and one of more than 2^24 chroma samples, three-picture size histories, every ordered triple of 24 colliding sizes as intra pictures on one decoder, and standard-mode custom sizes: plane-size relations, then deblock(plane, row, QUANT_TO_STRENGTH[q]) on the three planes and yuv420_to_rgba on the result under catch_unwind; non-trivial = sizes with an odd dimension or fewer than 10 rows/columns"
     ));
     rep.sample(json!({"size": [1, 1], "q": 31, "kind": "I"}));
     rep.sample(json!({"size": [17, 2], "q": 12, "kind": "D", "note": "chroma planes are one row high"}));
